@@ -24,7 +24,7 @@ RULE = ("one evaluation = one seeded history (<= 40 operations) on a long-lived 
 STATE_MEASURE = "distinct (feature, present emodulus keys, temp feature present, cached before?, last edited key) tuples"
 PROBES = ["read_cached_then_config_changed", "key_deleted_after_read", "emodulus_case_A", "emodulus_case_B", "emodulus_case_C",
           "viscosity_changed_while_temperature_present", "temp_feature_replaced", "plugin_read", "unavailable_read_raises",
-          "child_after_refresh", "file_backed", "scenario_switch", "ml_score_replaced"]
+          "child_after_refresh", "file_backed", "scenario_switch", "ml_score_replaced", "temperature_zero"]
 COMPONENTS = {"real": ["dclab RTDCBase.__getitem__/__contains__, AncillaryFeature (hash, availability, priorities)",
                        "af_emodulus/af_basic/af_fl_max_ctc/af_image_contour/af_ml_class, PlugInFeature, temporary features",
                        "RTDC_Dict / RTDC_HDF5 / RTDC_Hierarchy"],
@@ -150,14 +150,16 @@ class World:
         x = r.random()
         if x < 0.16:
             sc = r.choice(["C", "C", "A", "B", "none"])
+            medium = r.choice(["CellCarrier", "CellCarrierB", "water", "0.49% MC-PBS"])
+            # 0 degC is inside the valid range of the water model only (MC-PBS models divide by the temperature)
+            temps = [20.0, 23.0, 25.5] + ([0.0, 0.0] if medium == "water" else [])
             op = {"k": "scenario", "sc": sc, "lut": r.choice(["LE-2D-FEM-19", "HE-2D-FEM-22"]),
-                  "medium": r.choice(["CellCarrier", "CellCarrierB", "water", "0.49% MC-PBS"]),
-                  "temperature": r.choice([20.0, 23.0, 25.5]), "viscosity": r.choice([0.5, 1.0, 5.7]),
+                  "medium": medium, "temperature": r.choice(temps), "viscosity": r.choice([0.5, 1.0, 5.7]),
                   "model": r.choice([None, "herold-2017", "buyukurganci-2022", "buyukurganci-2022"])}
             return op
         if x < 0.36:
             sec, key, vals = r.choice([
-                ("calculation", "emodulus temperature", [20.0, 22.5, 24.0, 27.0]),
+                ("calculation", "emodulus temperature", [20.0, 22.5, 24.0, 27.0, 0.0]),
                 ("calculation", "emodulus viscosity", [0.8, 1.2, 3.3]),
                 ("calculation", "emodulus lut", ["LE-2D-FEM-19", "HE-2D-FEM-22"]),
                 ("calculation", "emodulus viscosity model", ["herold-2017", "buyukurganci-2022"]),
@@ -191,9 +193,9 @@ class World:
         if "crosstalk" in what:
             return ["fl1_max_ctc", "fl2_max_ctc"]
         if "frame rate" in what:
-            return ["time"]
+            return ["time", "c06_a", "c06_a"]
         if "pixel size" in what:
-            return ["area_um", "emodulus", "volume", "c06_a"]
+            return ["area_um", "emodulus", "volume", "c06_a", "c06_a"]
         if what.startswith("temp ml_score"):
             return ["ml_class"]
         if what.startswith("temp"):
@@ -238,6 +240,8 @@ class World:
         if k == "set":
             calc = cfg["calculation"]
             medium = str(calc.get("emodulus medium", "")).lower()
+            if op["key"] == "emodulus temperature" and op["val"] == 0 and medium != "water":
+                return
             # keep key sets non-contradictory (see ASSUMPTIONS)
             if op["key"] == "emodulus viscosity" and medium != "other":
                 return
@@ -311,6 +315,8 @@ class World:
             return None
         if temp is not None:
             self.ctx.probe("emodulus_case_C")
+            if temp == 0:
+                self.ctx.probe("temperature_zero")
             return emod.get_emodulus(medium=medium, temperature=temp, visc_model=model, **common)
         if "temp" in self.data:
             self.ctx.probe("emodulus_case_A")
